@@ -95,6 +95,10 @@ def check(case) -> Result:
     os.makedirs(wd, exist_ok=True)
     out = run_recipe(case, workdir=wd)
     if out.build_error:
+        if out.build_error.split(":")[0] in ("ValueError", "ValidationError"):
+            # every generated figure document is in the property's domain (existing files, positive sizes, lists of any length)
+            res.fail("construction", "valid_figure_document_refused", out.build_error[:200])
+            return res
         res.harness_error = "recipe does not build: " + out.build_error
         return res
     if out.encode_error:
